@@ -59,6 +59,12 @@ class Env(object):
         self.special = [(k, np.asarray(v, dtype=float)) for (k, _f, v) in env["special"]]
         self.xs = self.special[0][1] if self.special else None
         self.dim = env["dim"]
+        # unit vectors e_t behind the inexact directions of the run, in call order: a transcription forms its own d_t from them
+        self.inexact_units = [np.asarray(u, dtype=float) for u in env.get("inexact_units", [])]
+
+    def relative_direction(self, t, g, epsilon):
+        """the t-th inexact direction under the RELATIVE notion: d_t = g - epsilon ||g|| e_t  (||d_t - g|| <= epsilon ||g||)"""
+        return g - epsilon * np.linalg.norm(g) * self.inexact_units[t]
 
 
 def sq(v):
@@ -225,6 +231,31 @@ def accelerated_gradient_strongly_convex(kw, env):
     for _ in range(kw["n"]):
         y = x + c * (x - xp)
         xp, x = x, y - f.grad(y) / L
+    return f.value(x) - f.value(env.xs)
+
+
+def inexact_gradient_descent(kw, env):
+    """x_{t+1} = x_t - gamma d_t with ||d_t - grad f(x_t)|| <= eps ||grad f(x_t)||, gamma = 2 / ((1+eps) L + (1-eps) mu), t < n;
+    f(x_n) - f_*   (f(x_0) - f_* <= 1)"""
+    f = env.f[0]
+    L, mu, eps = kw["L"], kw["mu"], kw["epsilon"]
+    gamma = 2 / ((1 + eps) * L + (1 - eps) * mu)
+    x = env.x0[0]
+    for t in range(kw["n"]):
+        x = x - gamma * env.relative_direction(t, f.grad(x), eps)
+    return f.value(x) - f.value(env.xs)
+
+
+def inexact_accelerated_gradient(kw, env):
+    """x_{t+1} = y_t - d_t / L with ||d_t - grad f(y_t)|| <= eps ||grad f(y_t)||,  y_{t+1} = x_{t+1} + (t-1)/(t+2) (x_{t+1} - x_t),
+    x_1 the first iterate (t = 1 .. n), y_1 = x_0;  f(x_{n+1}) - f_*   (||x_0 - x_*||^2 <= 1)"""
+    f = env.f[0]
+    L, eps = kw["L"], kw["epsilon"]
+    y = x = env.x0[0]
+    for t in range(1, kw["n"] + 1):
+        xn = y - env.relative_direction(t - 1, f.grad(y), eps) / L
+        y = xn + (t - 1) / (t + 2) * (xn - x)
+        x = xn
     return f.value(x) - f.value(env.xs)
 
 
@@ -614,6 +645,10 @@ METHODS = {
     "gradient_descent_silver_stepsize_strongly_convex": gradient_descent_silver_stepsize_strongly_convex,
     "accelerated_gradient_strongly_convex": accelerated_gradient_strongly_convex,
     "heavy_ball_momentum": heavy_ball_momentum,
+    "inexact_gradient_descent": inexact_gradient_descent,
+    "inexact_accelerated_gradient_1": inexact_accelerated_gradient,
+    "inexact_accelerated_gradient_2": inexact_accelerated_gradient,
+    "inexact_accelerated_gradient_3": inexact_accelerated_gradient,
     "heavy_ball_momentum_qg_convex": heavy_ball_momentum_qg_convex,
     "optimized_gradient_for_gradient": optimized_gradient_for_gradient,
     "proximal_point": proximal_point,
